@@ -72,6 +72,10 @@ def run(ctx):
     r201b(ctx)
     r202(ctx)
     r203(ctx)
+    from . import callsigs as _cs2
+    _cs2.scratch_buffer_rule(ctx, 'R20.5')
+    from . import callsigs as _cs
+    _cs.general_rules(ctx, 'R20', ['api.ParquetFile', 'writer.make_part_file', 'writer.make_row_group', 'core.read_row_group', 'core.read_row_group_arrays', 'writer.write_common_metadata', 'writer.consolidate_categories'])
 
 
 def _reachable(ctx):
@@ -214,6 +218,13 @@ def r202(ctx):
         d = {norm(k): norm(v) for k, v in zip(state[0].args[0].keys, state[0].args[0].values)}
         ok = d.get("'fmd'") == 'fmd'
     ctx.ob('R20.2', 'api.__getitem__:new-handle-built-from-the-private-metadata', ok, '', api.loc(f))
+    if ok:
+        keys = sorted(k.value for k in state[0].args[0].keys if isinstance(k, ast.Constant))
+        allowed = {'fn', 'open', 'fmd', 'pandas_nulls', '_base_dtype', 'tz', '_columns_dtype'}
+        extra = [k for k in keys if k not in allowed]
+        ctx.ob('R20.2', 'api.__getitem__:derived-handle-inherits-only-dataset-level-state', not extra,
+               'state forwarded to the sliced handle: %s; anything computed from the parent\'s row groups (statistics, '
+               'category caches ...) is stale for the slice: %s' % (keys, extra or 'none'), api.loc(f))
     rg = [s for s in iter_child_stmts(f.body) if isinstance(s, ast.Assign) and norm(s.targets[0]) == 'fmd.row_groups']
     ctx.ob('R20.2', 'api.__getitem__:row-group-selection-stored-on-the-private-metadata-only',
            len(rg) == 1 and bool(fm) and cfg.dominates(cfg.node_of(fm[0]), cfg.node_of(rg[0])), '', api.loc(f))
